@@ -56,7 +56,7 @@ fn read_line_strict_cases(mut each: impl FnMut(&[u8], u64, usize, std::io::Resul
         let mut buf = vec![0xEEu8; 3];
         let res = read_line_strict(&mut r, &mut buf, max);
         let mut rest = Vec::new(); r.read_to_end(&mut rest).unwrap();
-        cases += 1;
+        cases += 1; crate::verif_native_watchdog::progress();
         each(&w, max, seg, res, &buf, strict_line(&w, max), rest);
     } } } }
     cases
@@ -101,7 +101,7 @@ fn vp_native_take_read_until_model_body() {
                 let mut b = vec![7u8];
                 use std::io::BufRead;
                 let k = (&mut r).take(n).read_until(10, &mut b).unwrap();
-                cases += 1;
+                cases += 1; crate::verif_native_watchdog::progress();
                 assert_eq!(k, until_len(&w, n, 10));
                 assert_eq!(&b[1..], &w[..k]);
                 let mut rest = Vec::new(); r.read_to_end(&mut rest).unwrap();
@@ -122,7 +122,7 @@ fn vp_native_read_line_contract_body() {
             let mut r = BufReader::with_capacity(2, Seg { data: &w, pos: 0, seg: 1 });
             let mut buf = Vec::new();
             let res = read_line(&mut r, &mut buf, max);
-            cases += 1;
+            cases += 1; crate::verif_native_watchdog::progress();
             assert!(buf.len() as u64 <= max);
             let k = until_len(&w, max, 10);
             if k >= 1 && w[k - 1] == 10 {
@@ -146,7 +146,7 @@ fn vp_native_replace_byte_contract_body() {
         for byte in 0u8..3 { for rep in 0u8..3 {
             let mut v = w.clone();
             replace_byte(byte, rep, &mut v);
-            cases += 1;
+            cases += 1; crate::verif_native_watchdog::progress();
             let want: Vec<u8> = w.iter().map(|&b| if b == byte { rep } else { b }).collect();
             assert_eq!(v, want);
         } }
@@ -187,11 +187,11 @@ fn vp_native_u64_from_str_spec_body() {
     for w in wires(b"+-019a ", 5) {
         let s = String::from_utf8(w).unwrap();
         assert_eq!(s.parse::<u64>().ok(), spec(&s), "{:?}", s);
-        cases += 1;
+        cases += 1; crate::verif_native_watchdog::progress();
     }
     for s in ["18446744073709551615", "18446744073709551616", "99999999999999999999", "+18446744073709551615", "000000000000000000000001", ""] {
         assert_eq!(s.parse::<u64>().ok(), spec(s), "{:?}", s);
-        cases += 1;
+        cases += 1; crate::verif_native_watchdog::progress();
     }
     println!("VP-NATIVE u64_from_str cases={}", cases);
 }
@@ -209,7 +209,7 @@ fn vp_native_status_of_token_spec_body() {
     for w in wires(b"0123456789+- a", 3).into_iter().chain(wires(b"0159", 4)) {
         if let Ok(s) = std::str::from_utf8(&w) {
             assert_eq!(s.parse::<http::StatusCode>().ok().map(|c| c.as_u16()), spec(&w), "{:?}", s);
-            cases += 1;
+            cases += 1; crate::verif_native_watchdog::progress();
         }
     }
     println!("VP-NATIVE status_of_token cases={}", cases);
